@@ -21,6 +21,8 @@ FIRST_MISSED = {
     "C13-m2": "top-up to exactly 100 % with shares-exact Guaranteed requests",
     "C14-m1": "side-plugin event sequences (engines/sideplug.py)",
     "C14-m2": "affinity annotations under their real keys",
+    "C04-m3": "generator: libmem pressure-realloc histories (overlapping zones, Realloc pushed beyond its request); C04 gained the libmem returned-zone component check",
+    "C14-m3": "generator: requests with absent optional resource sub-messages (quota without period, no shares, no CPU block, no resources) - which first found F-C14-5 on the unchanged tree",
 }
 
 
